@@ -14,7 +14,8 @@ def val_src(v):
 
 
 def sig_src(sig, method):
-    parts = ["self"] if method else []
+    # method: False / None = no receiver (function, staticmethod); True = "self"; a string = that receiver name
+    parts = [method if isinstance(method, str) else "self"] if method else []
     star = False
     for p in sig:
         if p["kind"] == "ko" and not star:
@@ -40,7 +41,18 @@ def comp_src(c, out, expr_of):
         out.append("class %s:\n    def __init__(%s):\n        %s\n" % (
             c["name"], sig_src(c["init"], True), body_src(c["name"] + ".__init__", c["init"], ret=False)))
         for m, s in c["meths"]:
-            out.append("    def %s(%s):\n        %s\n" % (m, sig_src(s, True), body_src(c["name"] + "." + m, s)))
+            # kind of the method: instance (default), static or class method; the callee's record names a wrong receiver
+            kind = c.get("mkinds", {}).get(m, "inst")
+            qual = c["name"] + "." + m
+            rec = "[%s]" % ", ".join("[%r, %s]" % (p["n"], p["n"]) for p in s)
+            if kind == "static":
+                out.append("    @staticmethod\n    def %s(%s):\n        return _rec(%r, %s)\n" % (m, sig_src(s, False), qual, rec))
+            elif kind == "class":
+                out.append("    @classmethod\n    def %s(%s):\n        return _rec(%r if cls is %s else %r, %s)\n" % (
+                    m, sig_src(s, "cls"), qual, c["name"], qual + ".BADRECEIVER", rec))
+            else:
+                out.append("    def %s(%s):\n        return _rec(%r if type(self) is %s else %r, %s)\n" % (
+                    m, sig_src(s, True), qual, c["name"], qual + ".BADRECEIVER", rec))
     elif c["k"] == "grp":
         for _, kid in c["kids"]:
             comp_src(kid, out, expr_of)
